@@ -93,7 +93,7 @@ def get(flavour="hook", repo=REPO):
         olds = [o for o in glob.glob(os.path.join(CACHE, "build-%s-*" % flavour))
                 if o != d and not o.endswith(".tmp")]
         olds.sort(key=lambda o: os.path.getmtime(o), reverse=True)
-        keep = int(os.environ.get("VERIF_CACHE_KEEP", "5"))
+        keep = int(os.environ.get("VERIF_CACHE_KEEP", "3"))
         for old in olds[keep:]:
             shutil.rmtree(old, ignore_errors=True)
         if os.path.isdir(d):
